@@ -35,6 +35,13 @@ def observe(P):
     # functions of the declared box, not of what was asked before
     again = {}
     try:
+        # ... nor of what happens to ANOTHER polyhedron: one built from this one's `variables` array (handing it on is the
+        # obvious way to build a second system over the same columns) gets other bounds written into ITS variables
+        if len(P.variables) > 1:
+            Q = pnd.ge_polyhedron(np.asarray(P).copy(), variables=P.variables, index=P.index)
+            for k in range(1, len(Q.variables)):
+                vb = Q.variables[k].bounds.as_tuple()
+                Q.variables[k] = puan.variable(Q.variables[k].id, (int(vb[0]), int(vb[1]) + 3))
         cb = np.asarray(P.column_bounds()).tolist()
         again["lo"], again["hi"] = (cb[0], cb[1]) if len(cb) == 2 else ([], [])
         again["row_bounds"] = [tuple(int(v) for v in r) for r in np.asarray(P.row_bounds()).tolist()]
@@ -85,7 +92,7 @@ def oracle_system(M, bnds, o=None, points=None, rng=None):
     if ag is not None:
         for k in ("lo", "hi", "row_bounds", "ncomb", "tcb"):
             if k in ag and ag[k] != o[k]:
-                fail("history", f"{k} changed after tighten_column_bounds() was called on the same polyhedron: first {o[k]}, then {ag[k]}")
+                fail("history", f"{k} changed after tighten_column_bounds() was called on the same polyhedron (and a second polyhedron built from its variables array was given other bounds): first {o[k]}, then {ag[k]}")
                 break
         if "exc" in ag:
             fail("history", f"re-querying the polyhedron after tighten_column_bounds() raised {ag['exc']}")
